@@ -60,8 +60,20 @@ func monC02(c *ctx, w *hWorld, pre *worldSnap, sr *stepResult, hist []string) {
 	}
 	switch cs.Fn {
 	case "ESDTTransfer", "ESDTNFTTransfer", "MultiESDTNFTTransfer":
-		// transfers move balances (C01); here: no overdraft on the sender side
+		// transfers move balances (C01); here: the stated supply change of a transfer is 0 — per storage-level key the total over
+		// all accounts of all shards + undelivered messages is unchanged (sender side, delivery, refund) — and no overdraft
 		req, ok := tkParse(cs)
+		if class := tkTransferClass(w, sr); class == "origin" || class == "deliver" || class == "refund" {
+			if k, eq := totalsEqual(pre.Totals, w.totals()); !eq {
+				sig := "supply/" + cs.Fn + "/total-changed-by-transfer"
+				if ok && class == "origin" && tkAliased(sr.Res.Pre, cs.Caller, req.Items) {
+					sig = tkSigF4b
+				}
+				c.fail("monitor", sig, fmt.Sprintf("%s (%s): the total supply of key %x (all accounts on all shards + undelivered messages) changed from %v to %v through a transfer", cs.Fn, class, k, pre.Totals[k], w.totals()[k]), tkReplay(sr, hist))
+				return
+			}
+			c.count("c02/transfer-total-unchanged/" + cs.Fn + "/" + class)
+		}
 		if !ok || !req.Sender || !cs.Snd {
 			return
 		}
@@ -382,6 +394,44 @@ func c02CreateOverwrite(c *ctx, u *universe, b *tkBudget) {
 	}
 }
 
+// c02TransfersToHolders: transfers whose destination already holds the token (same shard, cross shard with delivery,
+// refused delivery with refund): the total supply per key must not move
+func c02TransfersToHolders(c *ctx, u *universe, b *tkBudget) {
+	for wi := 0; wi < 2; wi++ {
+		w := u.stdWorld(2, uint32(wi), distinctGas(uint64(25+wi), 3))
+		u.populate(w)
+		r := c.tkNewRun(u, w, fmt.Sprintf("to-holders/w%d", wi), []monitor{monC02, monNonNeg}, b, false)
+		A, B, X := u.U[0], u.U[1], u.U[2]
+		F, L, S := u.Fung[0], u.Fung[len(u.Fung)-1], u.NFTs[1]
+		fin := func(sr *stepResult) {
+			c.count("c02/to-holders/" + sr.Call.Fn + "/" + statusName(sr.Res.Status))
+			for _, m := range sr.NewMsgs {
+				if d := r.deliver(m); !tkOK(d) {
+					r.refund(m)
+				}
+			}
+		}
+		for _, dst := range [][]byte{B, X} {
+			// fungible, destination holds 1000 of each (populate)
+			fin(r.tx(A, dst, "ESDTTransfer", bigGas, F, be(10)))
+			fin(r.tx(A, A, "MultiESDTNFTTransfer", bigGas, tkMulti(dst, F, nil, be(10))...))
+			fin(r.tx(A, A, "MultiESDTNFTTransfer", bigGas, tkMulti(dst, F, nil, be(10), L, nil, be(5), F, nil, be(5))...))
+			// SFT: first transfer lands on an empty destination, the following ones on a holder
+			fin(r.tx(A, A, "ESDTNFTTransfer", bigGas, S, be(1), be(5), dst))
+			fin(r.tx(A, A, "ESDTNFTTransfer", bigGas, S, be(1), be(3), dst))
+			fin(r.tx(A, A, "MultiESDTNFTTransfer", bigGas, tkMulti(dst, S, be(1), be(2))...))
+			fin(r.tx(A, A, "MultiESDTNFTTransfer", bigGas, tkMulti(dst, S, be(1), be(2), F, nil, be(1), S, be(1), be(1), S, be(2), be(1))...))
+			// and back from the holder to the original holder
+			fin(r.tx(dst, dst, "MultiESDTNFTTransfer", bigGas, tkMulti(A, F, nil, be(7), S, be(1), be(4))...))
+			fin(r.tx(dst, A, "ESDTTransfer", bigGas, L, be(9)))
+		}
+		// refused delivery (destination frozen after the origin call) and refund into a holder
+		r.must(r.sysOn(1, X, "ESDTFreeze", F), "freeze")
+		fin(r.tx(A, A, "MultiESDTNFTTransfer", bigGas, tkMulti(X, F, nil, be(10), S, be(1), be(1))...))
+		fin(r.tx(A, X, "ESDTTransfer", bigGas, F, be(3)))
+	}
+}
+
 func c02Tune(g *gen) {
 	g.wSupply, g.wTransfer, g.wSystem, g.wDeliver, g.wHostile, g.wAccount = 50, 14, 14, 8, 9, 5
 }
@@ -391,8 +441,8 @@ func init() {
 		c.stateProj = "sp_balances" // the part of the state this property's theorems speak about
 		u := newUniverse()
 		proj := tkProj(false, true)
-		c.rep.Rule = "(1) amount sweep on clones of fresh 2-shard worlds: caller's prior holding in {absent, 1, 1000, 2^64+5, 90-byte value} (fungible token and SFT nonce 1) x amount in {0, 1, bal-1, bal, bal+1, 2^64-1, 2^64, 100-byte, 101-byte} x {ESDTLocalMint, ESDTLocalBurn, ESDTBurn, ESDTNFTCreate, ESDTNFTAddQuantity, ESDTNFTBurn, ESDTTransfer, ESDTNFTTransfer, MultiESDTNFTTransfer (fungible / SFT / repeated token; same and cross shard), UpdateAttributes, AddURI, SaveKeyValue, SetUserName}; per prior holding: ESDTWipe (frozen / not frozen / SFT key), Freeze, UnFreeze, Pause, UnPause, SetRole, UnSetRole, CreateRoleTransfer, ChangeOwnerAddress, ClaimDeveloperRewards; F8 world (system-account address holds a token, then ESDTPause / ESDTUnPause on that shard and on the other shard); F4c world (creator holds 7 units of the fungible token TOK-a1b2c3 followed by byte 0x0a, plain and frozen, counter of TOK-a1b2c3 at 9, then ESDTNFTCreate); F4b world (AddQuantity / NFTBurn / AddURI / UpdateAttributes through the aliased key, the honest identifier, the repaired F4a shape). " +
-			"(2) random walks weighted to the supply functions. After EVERY executed call the monitor compares the change of every decoded balance of every account on every shard with the exact stated effect of the function (mint/add-quantity +v at the caller's key, create = quantity under counter+1, burns -v, wipe = minus the frozen holding, all other functions and all failed calls: nothing), checks amount <= holding for every debit incl. accumulated multi-transfer items, and scans the executing shard for negative or stored-zero balances. " +
+		c.rep.Rule = "(1) amount sweep on clones of fresh 2-shard worlds: caller's prior holding in {absent, 1, 1000, 2^64+5, 90-byte value} (fungible token and SFT nonce 1) x amount in {0, 1, bal-1, bal, bal+1, 2^64-1, 2^64, 100-byte, 101-byte} x {ESDTLocalMint, ESDTLocalBurn, ESDTBurn, ESDTNFTCreate, ESDTNFTAddQuantity, ESDTNFTBurn, ESDTTransfer, ESDTNFTTransfer, MultiESDTNFTTransfer (fungible / SFT / repeated token; same and cross shard), UpdateAttributes, AddURI, SaveKeyValue, SetUserName}; per prior holding: ESDTWipe (frozen / not frozen / SFT key), Freeze, UnFreeze, Pause, UnPause, SetRole, UnSetRole, CreateRoleTransfer, ChangeOwnerAddress, ClaimDeveloperRewards; transfers of all three functions (fungible ids of two lengths, SFT, repeated items) to destinations that already hold the token, same shard and cross shard with delivery, refused delivery and refund; F8 world (system-account address holds a token, then ESDTPause / ESDTUnPause on that shard and on the other shard); F4c world (creator holds 7 units of the fungible token TOK-a1b2c3 followed by byte 0x0a, plain and frozen, counter of TOK-a1b2c3 at 9, then ESDTNFTCreate); F4b world (AddQuantity / NFTBurn / AddURI / UpdateAttributes through the aliased key, the honest identifier, the repaired F4a shape). " +
+			"(2) random walks weighted to the supply functions. After EVERY executed call the monitor compares the change of every decoded balance of every account on every shard with the exact stated effect of the function (mint/add-quantity +v at the caller's key, create = quantity under counter+1, burns -v, wipe = minus the frozen holding, all other functions and all failed calls: nothing), checks for every executed transfer function (sender side, delivery, refund) that the total per storage-level key over all shards + undelivered messages is unchanged (the stated supply change of a transfer is 0), checks amount <= holding for every debit incl. accumulated multi-transfer items, and scans the executing shard for negative or stored-zero balances. " +
 			"Every executed call is re-executed by the Coq model (projection: status + complete post-state of the shard). distinct = distinct (world state, operation)."
 		c.tkBegin(proj)
 		quick := !(c.thorough() || c.widen)
@@ -403,6 +453,7 @@ func init() {
 		c02PauseOverHolding(c, u, &tkBudget{max: 20})
 		c02Alias(c, u, &tkBudget{max: 20})
 		c02CreateOverwrite(c, u, &tkBudget{max: 10})
+		c02TransfersToHolders(c, u, &tkBudget{max: 120})
 		c02Sweep(c, u, budget)
 		n, ops, prob, max := 8, 250, 2, 1000
 		if !quick {
